@@ -246,6 +246,11 @@ impl Report {
             extra.set(k, v.clone());
         }
         out.set("extra", extra);
+        let mut names = J::obj();
+        for (k, v) in &self.names {
+            names.set(k, J::arr_of_str(v.iter().cloned()));
+        }
+        out.set("names", names);
         out
     }
 
@@ -271,6 +276,15 @@ impl Report {
                         if let Some(h) = h.as_str().and_then(|s| u64::from_str_radix(s, 16).ok()) {
                             self.distinct_in(k, h);
                         }
+                    }
+                }
+            }
+        }
+        if let Some(J::Obj(names)) = j.get("names") {
+            for (k, v) in names {
+                if let J::Arr(items) = v {
+                    for n in items.iter().filter_map(J::as_str) {
+                        self.name_in(k, n);
                     }
                 }
             }
@@ -418,7 +432,11 @@ impl Report {
             .with("assumptions", J::arr_of_str(self.assumptions.iter().cloned()))
             .with("wall_s", J::Num((wall * 1000.0).round() / 1000.0))
             .with("violations", J::Int(new_violations.len() as i64));
-        let evidence_dir = root.join("evidence");
+        // reruns by the sanitizer add-on and by `replay` describe other runs: they redirect their evidence (VERIF_EVIDENCE_DIR)
+        let evidence_dir = match std::env::var("VERIF_EVIDENCE_DIR") {
+            Ok(d) if !d.is_empty() => PathBuf::from(d),
+            _ => root.join("evidence"),
+        };
         let _ = std::fs::create_dir_all(&evidence_dir);
         let evidence_path = evidence_dir.join(format!("{}.json", self.prop));
         if let Err(e) = std::fs::write(&evidence_path, doc.to_string_pretty()) {
@@ -568,5 +586,61 @@ pub fn run_worker_processes(rep: &mut Report, base_args: &[String], shards: usiz
                 rep.inconclusive(&format!("worker process {i} ended without a report (exit {code:?}, signal {signal:?})"));
             }
         }
+    }
+}
+
+/// `./check <id> replay <file>` for the checks whose cases are generated from (seed, tier): run the same exploration again with the
+/// recorded seed and tier (evidence redirected) and report whether the recorded signature shows up again
+pub fn generic_replay(prop: &str, path: &str) -> i32 {
+    use std::process::{Command, Stdio};
+    let Ok(text) = std::fs::read_to_string(path) else {
+        println!("INCONCLUSIVE property={prop} reason=cannot read replay file {path}");
+        return 2;
+    };
+    let Ok(doc) = crate::json::parse(&text) else {
+        println!("INCONCLUSIVE property={prop} reason=cannot parse replay file {path}");
+        return 2;
+    };
+    let sig = doc.get("signature").and_then(J::as_str).unwrap_or("").to_string();
+    let tier = doc.get("tier").and_then(J::as_str).unwrap_or("quick").to_string();
+    let seed = doc.get("seed").and_then(J::as_i64).unwrap_or(1);
+    let root = verif_root();
+    let exe = std::env::current_exe().expect("current_exe");
+    println!("replaying {prop} {tier} with VERIF_SEED={seed}, looking for sig={sig}");
+    let out = Command::new(exe)
+        .args([prop, &tier])
+        .env("VERIF_SEED", seed.to_string())
+        .env("VERIF_NO_SAN", "1")
+        .env("VERIF_EVIDENCE_DIR", root.join("harness/target/replay-evidence"))
+        .stdout(Stdio::piped())
+        .stderr(Stdio::null())
+        .output();
+    let Ok(out) = out else {
+        println!("INCONCLUSIVE property={prop} reason=cannot start the replay run");
+        return 2;
+    };
+    let stdout = String::from_utf8_lossy(&out.stdout);
+    let mut hit = false;
+    let mut lines = stdout.lines().peekable();
+    while let Some(l) = lines.next() {
+        let is_new = l.trim_start().starts_with("rule=") && l.trim_end().ends_with(&format!("sig={sig}"));
+        let is_known = l.starts_with("KNOWN-FINDING:") && l.contains(&format!("[sig={sig};"));
+        if is_new || is_known {
+            hit = true;
+            println!("{l}");
+            if is_new {
+                if let Some(d) = lines.peek() {
+                    println!("{d}");
+                }
+            }
+        }
+    }
+    if hit {
+        println!("replay: the signature is reproduced on the current tree");
+        println!("VIOLATION property={prop} replay={path}");
+        1
+    } else {
+        println!("replay: the signature does not occur on the current tree ({})", stdout.lines().find(|l| l.contains("verdict=")).unwrap_or("no verdict line"));
+        0
     }
 }
